@@ -86,6 +86,21 @@ func drawC14(rt *rapid.T) interface{} {
 	sc.StopK = rapid.SampledFrom([]int{-1, -1, 0, 1, 2, 4, 8}).Draw(rt, "stopk")
 	sc.WaitVia = rapid.SampledFrom([]string{"both", "own", "wg"}).Draw(rt, "waitvia")
 	sc.RunK = rapid.SampledFrom([]int{0, 0, 0, 1, 2, 5, 12}).Draw(rt, "runk")
+	if hx.Rare(rt, hx.Pick(300, 60), "crowd") {
+		// a backlog: one lane, a first call that keeps it busy, 70-270 callers queueing one call each behind it (more accepted
+		// and unstarted calls than any initial queue capacity one might think of)
+		sc.Kind = rapid.SampledFrom([]string{"line", "mline"}).Draw(rt, "crowdkind")
+		sc.StopK, sc.RunK = -1, rapid.SampledFrom([]int{0, 0, 3}).Draw(rt, "crowdrunk")
+		sc.QSize = rapid.SampledFrom([]int{0, 300, 1000, 8}).Draw(rt, "crowdq") // 0: the package's default; 8: the crowd is refused as full
+		n := rapid.SampledFrom([]int{70, 100, 140, 270}).Draw(rt, "crowdn")
+		h := rapid.SampledFrom(hashes).Draw(rt, "crowdhash")
+		sc.Callers = append(sc.Callers, []laneCall{{ID: 1, Hash: h, Ctx: "bg", Yields: rapid.SampledFrom([]int{20, 100, 400}).Draw(rt, "crowdbusy")}})
+		for i := 0; i < n; i++ {
+			sc.Callers = append(sc.Callers, []laneCall{{ID: i + 2, Hash: h, Ctx: "bg", Yields: rapid.IntRange(0, 1).Draw(rt, "crowdy")}})
+		}
+		sc.Knobs = hx.DrawKnobs(rt, nil)
+		return sc
+	}
 	nc := rapid.IntRange(2, hx.Pick(5, 7)).Draw(rt, "ncallers")
 	id := 1
 	for i := 0; i < nc; i++ {
@@ -301,6 +316,11 @@ func runC14(t *testing.T, sci interface{}, keepLog bool) *hx.Outcome {
 			})
 		}
 		started = true
+		// backlog class: the callers take turns - the second one calls once the lane has taken the first call off its queue,
+		// every further one once its predecessor's call is known to be accepted - and the first call keeps the lane busy until
+		// all the others are queued: acceptance order is then a total order the lane has to follow
+		crowd := len(sc.Callers) > 64
+		recOfCaller := make([]*callRec, len(sc.Callers))
 		var callers []*simrt.Task
 		for ci, calls := range sc.Callers {
 			ci, calls := ci, calls
@@ -308,6 +328,18 @@ func runC14(t *testing.T, sci interface{}, keepLog bool) *hx.Outcome {
 				me := simrt.Cur()
 				for _, c := range calls {
 					c := c
+					if crowd && ci > 0 {
+						s.Block(me, func() bool {
+							p := recOfCaller[ci-1]
+							if p == nil {
+								return false
+							}
+							if ci == 1 {
+								return p.starts > 0 || p.returned
+							}
+							return p.acceptedEv != 0 || p.returned
+						}, "harness:crowd-turn")
+					}
 					cx := hx.NewCtx(fmt.Sprintf("call%d", c.ID))
 					switch c.Ctx {
 					case "pre":
@@ -323,6 +355,7 @@ func runC14(t *testing.T, sci interface{}, keepLog bool) *hx.Outcome {
 					}
 					r := &callRec{c: c, task: me, ctx: cx, lane: -2, laneTask: -1}
 					recs = append(recs, r)
+					recOfCaller[ci] = r
 					callee := func(ctx context.Context, lane int) (interface{}, error) {
 						lt := simrt.Cur()
 						ev++
@@ -377,6 +410,16 @@ func runC14(t *testing.T, sci interface{}, keepLog bool) *hx.Outcome {
 								}
 							}
 							s.Fail("lane-order", "call %d started before call %d, which had been accepted before call %d was even invoked", c.ID, a.c.ID, c.ID)
+						}
+						if crowd && ci == 0 {
+							s.Block(lt, func() bool {
+								for _, p := range recOfCaller {
+									if p == nil || (p.acceptedEv == 0 && !p.returned && p != r) {
+										return false
+									}
+								}
+								return true
+							}, "harness:crowd-busy")
 						}
 						for i := 0; i < c.Yields; i++ {
 							simrt.Yield()
@@ -523,13 +566,19 @@ func runC14(t *testing.T, sci interface{}, keepLog bool) *hx.Outcome {
 		}
 	}
 
-	res := hx.RunSim(t, sc.Knobs.Config(keepLog, 60000), func(s *simrt.Sim) { s.OnQuiescent = observe }, main)
+	res := hx.RunSim(t, sc.Knobs.Config(keepLog, 60000+4000*len(sc.Callers)), func(s *simrt.Sim) { s.OnQuiescent = observe }, main)
 	o := hx.FromResult(res)
 	if o.Class == "" && res.Stuck {
 		o.Class, o.Msg = "stuck", "callers or lanes never finished: "+hx.Unfinished(res)
 	}
 	if o.Class == "panic" && strings.Contains(o.Msg, "index out of range") {
 		o.Class = "lane-index-out-of-range"
+	}
+	if len(sc.Callers) > 64 {
+		if o.Counts == nil {
+			o.Counts = map[string]int{}
+		}
+		o.Counts["backlog-of-more-than-64-callers"]++
 	}
 	return o
 }
@@ -542,9 +591,9 @@ func TestC14(t *testing.T) {
 		Run:         runC14,
 		Real:        []string{"syncx/pipe/line, mline, async (RunnerQ: AsyncCall/AsyncDelegate/AsyncProc, ProcChan), pipe/q, async.Q, pipe.NormalizeSlotIndex (simgen-transformed)", "reflect (AsyncCall)", "ulog/zap (silenced)"},
 		Stubs:       []string{"sync (simsync)", "context.Context (hx.SimCtx)", "goroutine scheduling and select choice (simrt)"},
-		Rule: "scenario = executor kind x lanes {1,2,3,5} x queue size {1,2,8} x 2-5 callers x 1-4 calls (hash incl. negative, MaxInt, MinInt; ctx background / pre-cancelled / cancelled by a canceller task; callee yields 0-2 times, may fail) x Stop placement (stopper task after k yields, or at the end) x Run placement (before the first call, or by a starter task after k yields: calls and Stop may precede Run) x scheduler knobs/tape incl. select order; " +
+		Rule: "scenario = executor kind x lanes {1,2,3,5} x queue size {1,2,8} x 2-5 callers x 1-4 calls (hash incl. negative, MaxInt, MinInt; ctx background / pre-cancelled / cancelled by a canceller task; callee yields 0-2 times, may fail) (about 1 in 300, thorough 1 in 60: one lane kept busy by a first call with 70-270 callers queueing behind it) x Stop placement (stopper task after k yields, or at the end) x Run placement (before the first call, or by a starter task after k yields: calls and Stop may precede Run) x scheduler knobs/tape incl. select order; " +
 			"non-trivial = >=2 tasks and >=1 switch; distinct = distinct event-log hash",
-		Probes: []string{"call-observed-accepted", "stop-mid-run", "late-run", "run-after-stop", "refused-full", "caller-got-ctx-error", "ctx-ended"},
+		Probes: []string{"call-observed-accepted", "stop-mid-run", "late-run", "run-after-stop", "refused-full", "caller-got-ctx-error", "ctx-ended", "backlog-of-more-than-64-callers"},
 		Assumptions: []string{"'accepted before' is known only when the earlier call was observed blocked waiting for its result (or had returned) before the later one was invoked",
 			"order across lanes of the multi-line executor is checked for equal hashes only (equal hash => same lane)"},
 	})
